@@ -107,7 +107,7 @@ def step_label(step: dict) -> str:
     if r in ('leading', 'trailing'):
         return f'{r}_comment-setter'
     return {'meta_set': 'meta-setitem', 'raw_append': 'raw_meta.append',
-            'cmt_insert': 'raw_meta_with_comments.insert'}[r]
+            'cmt_insert': 'raw_meta_with_comments.insert', 'clear': 'meta.clear', 'indent_by': 'indent_by='}[r]
 
 
 def _special(tok: M.RawTokenModel) -> bool:
@@ -190,6 +190,16 @@ def apply_step(ctx: Ctx, step: dict, no: int) -> bool:
     def fail(key: str, text: str) -> bool:
         res.fail(key, f'{describe(case, no)}: {text}', minimal)
         return False
+
+    # ---- unjudged set-up steps (used between two judged insertions)
+    if r == 'clear':
+        parent.meta.clear()
+        res.transitions += 1
+        return True
+    if r == 'indent_by':
+        parent.indent_by = step['v']
+        res.transitions += 1
+        return True
 
     # ---- before
     old_special = [(t, type(t).__name__, _tok_indent(t), t.raw_text) for t in store if _special(t)]
@@ -399,6 +409,10 @@ def describe(case: dict, upto: int) -> str:
             steps.append(f'raw_meta.append(MetaItem.from_value({s["key"]!r}, "v", indent={s["x"]!r}))')
         elif r == 'cmt_insert':
             steps.append(f'raw_meta_with_comments.insert(0, BlockComment.from_value({s["s"]!r}, indent={s["x"]!r}))')
+        elif r == 'clear':
+            steps.append('meta.clear()')
+        elif r == 'indent_by':
+            steps.append(f'parent.indent_by = {s["v"]!r}')
         else:
             steps.append(f'<{s["on"]}>.{r}_comment = {s["s"]!r}')
     who = 'directive[0].postings[0]' if case['parent'] == 'posting' else 'directive[0]'
@@ -534,7 +548,8 @@ def routes(parent: str, n: int, tier: str, second: bool = False, short: bool = F
             out.append({'r': 'meta_set', 'key': 'aa', 'v': v})
     for x in RAW_INDENTS:
         out.append({'r': 'raw_append', 'key': zk, 'x': x})
-    texts = [cs] if (tier == 'quick' or short) else [cs, cs + '\n' + cs + cs]
+    # a one-line text, and a text with an EMPTY line in the middle (its ';' line must carry the indent too)
+    texts = [cs] if short else ([cs, cs + '\n\n' + cs] if tier == 'quick' else [cs, cs + '\n' + cs + cs, cs + '\n\n' + cs])
     for x in RAW_INDENTS:
         for s in texts:
             out.append({'r': 'cmt_insert', 's': s, 'x': x})
@@ -591,6 +606,14 @@ def cases(tier: str) -> list[dict]:
                     base = {'parent': parent, 'text': text, 'indent_by': ib}
                     for s1 in firsts:
                         items.append(dict(base, steps=[s1]))
+                    if n == 0:
+                        # the default rule used twice on one parent with a change in between: create the first item, remove
+                        # it, change indent_by, create a first item again (the sequence of docs/special/indents.md)
+                        for ib2 in INDENT_BYS:
+                            if ib2 != ib:
+                                items.append(dict(base, steps=[
+                                    {'r': 'meta_set', 'key': 'newkey', 'v': VALUES[0]}, {'r': 'clear'},
+                                    {'r': 'indent_by', 'v': ib2}, {'r': 'meta_set', 'key': 'newkez', 'v': VALUES[0]}]))
                     if tier == 'quick' or not final or parent not in PAIR_PARENTS:
                         # the same route twice in a row (fresh key / other comment text the second time)
                         for s1 in firsts:
